@@ -232,8 +232,8 @@ def case_patterns(kw):
 def plan(tier, seed, scale):
     K = 16
     tasks = [{"name": "keywords", "kind": "keywords"}]
-    n1 = int((6000 if tier == "quick" else 150000) * scale)
-    n2 = int((2000 if tier == "quick" else 50000) * scale)
+    n1 = int((6000 if tier == "quick" else 100000) * scale)
+    n2 = int((2000 if tier == "quick" else 35000) * scale)
     for i in range(K):
         tasks.append({"name": "syn-%d" % i, "kind": "syn", "n": max(n1 // K, 5), "shard": i})
         tasks.append({"name": "typed-%d" % i, "kind": "typed", "n": max(n2 // K, 5), "shard": i})
